@@ -18,7 +18,7 @@ from flipjump.utils.constants import (
     GAP_BETWEEN_PYTHONS_AND_PREPROCESSOR_MACRO_RECURSION_DEPTH,
 )
 from flipjump.utils.exceptions import FlipJumpPreprocessorException, FlipJumpExprException
-from flipjump.assembler.inner_classes.expr import Expr
+from flipjump.assembler.inner_classes.expr import Expr, int_to_str
 from flipjump.assembler.inner_classes.ops import (
     FlipJump,
     WordFlip,
@@ -225,7 +225,7 @@ class PreprocessorData:
         if self.curr_address + ops_to_pad * op_size > (1 << self.memory_width):
             macro_resolve_error(
                 self.curr_tree,
-                f"'pad {ops_alignment}' at address {self.curr_address} needs {ops_to_pad} padding ops, "
+                f"'pad {int_to_str(ops_alignment)}' at address {self.curr_address} needs {int_to_str(ops_to_pad)} padding ops, "
                 f"which exceeds the {self.memory_width}-bits memory-width.",
             )
         self.curr_address += ops_to_pad * op_size
@@ -255,7 +255,7 @@ def get_pad_ops_alignment(op: Pad, preprocessor_data: PreprocessorData) -> int:
     if ops_alignment <= 0:
         macro_resolve_error(
             preprocessor_data.curr_tree,
-            f"'pad' must get a positive ops-alignment, but got {ops_alignment}. In {op.code_position}.",
+            f"'pad' must get a positive ops-alignment, but got {int_to_str(ops_alignment)}. In {op.code_position}.",
         )
     return ops_alignment
 
